@@ -41,10 +41,11 @@ structure FileSt where
   part : Option Nat    -- cold staging object "<path>.part": number of chunks it holds (partial copy)
   tier : Tier          -- tier_files.tier of the file's row
   pend : Nat           -- tier_migrations rows of the file with completed_at IS NULL
+  recent : Bool        -- tier_files.migrated_at is non-NULL and inside the reconcile window (48 h, generated)
 deriving DecidableEq, Repr
 
 /-- A freshly ingested, registered file. -/
-def init : FileSt := { hot := true, cold := false, part := none, tier := .hot, pend := 0 }
+def init : FileSt := { hot := true, cold := false, part := none, tier := .hot, pend := 0, recent := false }
 
 def FileSt.has (s : FileSt) : Tier → Bool
   | .hot => s.hot
@@ -111,7 +112,7 @@ def prim (n : Nat) (a : Act) (x : Exec) : Exec × R :=
     else (x, .ok)                                 -- `if migrationID > 0` guard: nothing is attempted
   | .copy .hot .cold => copyHotCold n x
   | .copy _ _ => (x, .failed)                     -- FindCandidates: "only hot -> cold supported"
-  | .setMeta t => atomic x (fun y => { y with st := { y.st with tier := t } })
+  | .setMeta t => atomic x (fun y => { y with st := { y.st with tier := t, recent := true } })  -- migrated_at = CURRENT_TIMESTAMP
   | .del t => atomic x (fun y => { y with st := y.st.setObj t false })
 
 inductive Exit | ok | err | crash
@@ -156,12 +157,12 @@ structure RecOut where
   crashed : Bool := false
 deriving DecidableEq, Repr
 
-/-- `ReconcileOrphanedFiles` for this file: considered iff its metadata tier is `recGuard`
-(and it was migrated within the window — assumed); `Exists` probe on `recProbe` (a failed probe
+/-- `ReconcileOrphanedFiles` for this file: considered iff its metadata tier is `recGuard` AND its
+`migrated_at` lies inside the window (`GetRecentlyMigratedFiles`); `Exists` probe on `recProbe` (a failed probe
 counts an error and skips the file), then `Delete` on `recDelete`. -/
 def recOp (s : FileSt) (orc : List Outcome) : Exec × RecOut :=
   let x : Exec := { st := s, orc := orc, logged := false }
-  if s.tier = Arc.Generated.C12.recGuard then
+  if s.tier = Arc.Generated.C12.recGuard ∧ s.recent = true then
     match atomic x id with                                     -- Exists probe (read; may error)
     | (x1, .crashed) => (x1, { crashed := true })
     | (x1, .failed) => (x1, { errors := 1 })
@@ -174,11 +175,18 @@ def recOp (s : FileSt) (orc : List Outcome) : Exec × RecOut :=
       else (x1, {})
   else (x, {})
 
-/-- `ScanAndRegisterFiles` for this file: listed iff the hot object exists; upsert sets tier := scanTier. -/
+/-- `ScanAndRegisterFiles` for this file: listed iff the hot object exists. Unless the scan skips
+paths that already have a row (`scanSkipsRegistered`, generated — the file always has one), the
+upsert sets tier := scanTier and, when that changes the tier, migrated_at := now. -/
 def scanOp (s : FileSt) (orc : List Outcome) : Exec × R :=
   let x : Exec := { st := s, orc := orc, logged := false }
-  if s.hot then atomic x (fun y => { y with st := { y.st with tier := Arc.Generated.C12.scanTier } })
+  if s.hot && !Arc.Generated.C12.scanSkipsRegistered then
+    atomic x (fun y => { y with st := { y.st with tier := Arc.Generated.C12.scanTier,
+                                                   recent := if y.st.tier = Arc.Generated.C12.scanTier then y.st.recent else true } })
   else (x, .ok)
+
+/-- More than the reconcile window passes without any tiering activity on the file. -/
+def ageOp (s : FileSt) : FileSt := { s with recent := false }
 
 /-- One phase of a cycle; `true` = crashed. -/
 def phaseOp (n : Nat) (p : Phase) (s : FileSt) (orc : List Outcome) : FileSt × List Outcome × Bool :=
